@@ -1,3 +1,118 @@
+(* C12/Properties.v — the property theorems only.  Each is closed by [exact] of a lemma from Proofs.v
+   (or by vm_compute for the concrete witnesses) and followed by Print Assumptions.
+
+   Reading guide.  [run c init ops = Some s] : the history [ops] — bring-ups, asynchronous and synchronous
+   checkpoints, releases, completions [Done t] of ANY parked checkpoint write in ANY order, and crashes followed by
+   the restore of a new incarnation, each at ANY position — is executed by the model with configuration [c]
+   ([None] only when an allocator answer supplied with a [New] is not a free pool address).
+   [c_ordered c = true] is the repaired write discipline: writes and deletes of one session take effect in issue
+   order.  [c_ordered c = false] is what the code does today (an asynchronous Put applies whenever it completes). *)
 From OV Require Import Common.Base C12.Model C12.Proofs.
-Example C12_placeholder : init = init. Proof. reflexivity. Qed.
-Print Assumptions C12_placeholder.
+Open Scope N_scope.
+
+(* Released sessions stay gone: for every history, every completion order of the checkpoint writes and every crash
+   point (a crash may occur anywhere in [ops], and one more is appended here), a session released at any earlier
+   point is neither in the in-memory index nor in the store — before and after the restart. *)
+Theorem C12_released_stay_gone :
+  forall c ops s, c_ordered c = true -> run c init ops = Some s ->
+  (forall i, In i (released s) -> aget i (live s) = None /\ aget i (store s) = None) /\
+  (forall p f now i, In i (released s) ->
+     let s' := fst (do_crash c s p f now) in
+     In i (released s') /\ aget i (live s') = None /\ aget i (store s') = None).
+Proof. exact released_stay_gone. Qed.
+Print Assumptions C12_released_stay_gone.
+
+(* the code as it is today violates it: the Put of a checkpoint completes after the Delete of the same session *)
+Definition est (i : N) : newspec :=
+  {| n_id := i; n_bound := true; n_appr := true; n_crea := true; n_v6b := false; n_a4 := AAlloc; n_a6 := ANone;
+     n_apd := ANone; n_l4 := 3600; n_b4 := Some (-10)%Z; n_l6 := 0; n_b6 := None |}.
+Theorem C12_released_stay_gone_refuted :
+  exists p ops s, run (today p 4 4 2) init ops = Some s /\ In 0 (released s) /\ aget 0 (live s) <> None /\
+                  aget 0 (store s) <> None.
+Proof.
+  exists IPoE, [New (est 0) (Some 0) None None; Ck 0; Rel 0; Done 0; Crash true None 0%Z].
+  eexists. split; [vm_compute; reflexivity|]. cbn. repeat split; auto; discriminate.
+Qed.
+Print Assumptions C12_released_stay_gone_refuted.
+
+(* Established sessions are restored: whatever state [s] the control plane stops in, every image [r] in the surviving
+   store whose lease has not expired is back in the session index of the new incarnation with the same identity,
+   addresses, lease data and checkpoint stamp; if it is one the restore path replays (IPoE: not half-established;
+   PPPoE: open with an IPv4 address) and the dataplane accepts it, the programming log contains the session add, the
+   unnumbered / uRPF bindings and every address it holds, the dataplane entry carries exactly these addresses, the
+   restored-session event is published, and with a preserved dataplane the session keeps its interface index. *)
+Theorem C12_established_restored :
+  forall c s (p : bool) f now k r,
+  aget k (store s) = Some r -> expired c now r = false ->
+  let dp0 := if p then dp s else [] in
+  let cause := match dp0 with [] => 1 | _ => 0 end in
+  exists lg, snd (do_crash c s p f now) = OCrash lg /\
+             restoredQ c f cause dp0 k r (fst (do_crash c s p f now)) lg.
+Proof. exact established_restored. Qed.
+Print Assumptions C12_established_restored.
+
+(* Addresses are reserved again before any new allocation (restore level): if the store images of different
+   sessions do not share an in-pool address, then after the restart every in-pool address of every restored session
+   is leased to that session in the allocator, so no admissible fresh allocation returns it.
+   PARTIAL: the premise [disjoint_images] is not yet derived from the history invariant (under [c_ordered] it
+   follows from "store image addresses = live addresses" + this lemma's own conclusion; that induction is written
+   down in notes/C12.md but not mechanised).  Everything else is at full strength (all states, all pool sizes). *)
+Theorem C12_reserved_before_alloc_partial :
+  forall c s (p : bool) f now,
+  reserves c -> disjoint_images c (store s) ->
+  let s' := fst (do_crash c s p f now) in
+  (forall k r ad, aget k (live s') = Some r -> In ad (addrs r) -> inpool c ad = true ->
+                  aget ad (leases s') = Some k) /\
+  (forall fam a, fam < 3 -> alloc_ok c (leases s') fam (Some a) = true ->
+                 forall k r, aget k (live s') = Some r -> ~ In (code fam a) (addrs r)).
+Proof. exact reserved_after_restore. Qed.
+Print Assumptions C12_reserved_before_alloc_partial.
+
+(* today's PPPoE restore never re-reserves: after the restart the allocator may hand session 1 the address of the
+   restored session 0 (write ordering repaired, so this is the second defect alone) *)
+Definition pp_no_reserve : cfg :=
+  {| c_proto := PPPoE; c_ordered := true; c_reserve := false; c_n4 := 4; c_n6 := 4; c_npd := 2 |}.
+Theorem C12_reserved_before_alloc_refuted :
+  exists ops s r0 r1, run pp_no_reserve init ops = Some s /\
+    aget 0 (live s) = Some r0 /\ aget 1 (live s) = Some r1 /\ s_v4 r0 = Some 0 /\ s_v4 r1 = Some 0.
+Proof.
+  exists [New (est 0) (Some 0) None None; Ck 0; Done 0; Crash true None 0%Z; New (est 1) (Some 0) None None].
+  eexists. eexists. eexists. split; [vm_compute; reflexivity|]. cbn. repeat split.
+Qed.
+Print Assumptions C12_reserved_before_alloc_refuted.
+
+(* today's write discipline also lets an older image overwrite a newer one: the restored session carries the stamp
+   of checkpoint 0 although checkpoint 1 had completed *)
+Theorem C12_latest_image_refuted :
+  exists ops s r, run (today IPoE 4 4 2) init ops = Some s /\ aget 0 (live s) = Some r /\ s_stamp r = Some 0.
+Proof.
+  exists [New (est 0) (Some 0) None None; Ck 0; Ck 0; Done 1; Done 0; Crash true None 0%Z].
+  eexists. eexists. split; [vm_compute; reflexivity|]. cbn. split; reflexivity.
+Qed.
+Print Assumptions C12_latest_image_refuted.
+
+(* non-vacuity: under the repaired discipline the overtaken Put is dropped, session 0 stays gone while session 1 is
+   restored with its address reserved; the hypotheses of the three theorems are met by this history *)
+Definition ex_ops : list op :=
+  [New (est 0) (Some 0) None None; New (est 1) (Some 1) None None; Ck 0; Ck 1; Rel 0; Done 1; Done 0].
+Example C12_nonvacuous :
+  exists s, run (repaired PPPoE 4 4 2) init ex_ops = Some s /\ In 0 (released s) /\
+    (exists r, aget 1 (store s) = Some r /\ expired (repaired PPPoE 4 4 2) 0 r = false /\
+               replayed (repaired PPPoE 4 4 2) r = true) /\
+    disjoint_images (repaired PPPoE 4 4 2) (store s) /\ reserves (repaired PPPoE 4 4 2) /\
+    let s' := fst (do_crash (repaired PPPoE 4 4 2) s true None 0) in
+    aget 0 (live s') = None /\ (exists r', aget 1 (live s') = Some r' /\ s_v4 r' = Some 1 /\ s_swif r' = 101) /\
+    aget (code 0 1) (leases s') = Some 1 /\
+    alloc_ok (repaired PPPoE 4 4 2) (leases s') 0 (Some 1) = false /\
+    alloc_ok (repaired PPPoE 4 4 2) (leases s') 0 (Some 0) = true.
+Proof.
+  eexists. split; [vm_compute; reflexivity|]. split; [cbn; auto|]. split.
+  { eexists. split; [vm_compute; reflexivity|]. split; vm_compute; reflexivity. }
+  split.
+  { intros k k' r r' ad G G'. cbn in G, G'.
+    destruct (k =? 1) eqn:E; [|discriminate]. destruct (k' =? 1) eqn:E'; [|discriminate].
+    apply N.eqb_eq in E, E'. congruence. }
+  split; [right; reflexivity|].
+  vm_compute. repeat split; try reflexivity. eexists. repeat split.
+Qed.
+Print Assumptions C12_nonvacuous.
